@@ -117,7 +117,7 @@ var (
 	ProfC15 = &Profile{
 		Methods:  cat(allEngineMethods, rep(MDAG, 3), rep(MConcurrent, 2)),
 		MinRules: 2, MaxRules: 6, SalSpan: 2,
-		Secs:    map[int]int{SecY: 3, SecLocal: 5, SecReader: 2, SecCall: 1, SecIfKind: 1, SecIfIdx: 1, SecForKind: 1, SecAsgKind: 1, SecShW: 2, SecShR: 2, SecRangeKey: 3, SecLocObj: 3, SecLocObjReader: 1, SecLocAlias: 3},
+		Secs:    map[int]int{SecY: 3, SecLocal: 5, SecReader: 2, SecCall: 1, SecIfKind: 1, SecIfIdx: 1, SecForKind: 1, SecAsgKind: 1, SecShW: 2, SecShR: 2, SecRangeKey: 3, SecLocObj: 3, SecLocObjReader: 1, SecLocAlias: 3, SecOptName: 3},
 		MaxSecs: 3, Rets: []int{RetNone, RetNestedV},
 		FaultPct: 40, GatePct: 30, RetPct: 50, MinCalls: 4, MaxCalls: 14, UnknownNamePct: 10, BadNMPct: 5,
 	}
